@@ -1,9 +1,16 @@
 """C04 — step start times obey the documented rate, phase, delay and scheduling law."""
 from pyvc.driver import check_property
-from . import async_node, async_conn
+from . import async_node, async_conn, async_misc
 
-UNITS = [u for u in async_node.UNITS + async_conn.UNITS if "C04" in u.props]
+UNITS = [u for u in async_node.UNITS + async_conn.UNITS + async_misc.UNITS if "C04" in u.props]
 
 
 def check(tier, seed):
-    return check_property("C04", UNITS, tier, seed)
+    from pyvc import bounded
+    lines, ev, err = bounded.async_episodes("C04", tier, seed)
+    extra = {}
+    extra["bounded"] = list(extra.get("bounded", [])) + [ev]
+    for l in ev.get("known_finding_lines", []):
+        print(l)
+    code = check_property("C04", UNITS, tier, seed, extra=extra)
+    return bounded.finish_with_bounded("C04", code, lines, err)
